@@ -97,11 +97,8 @@ Together with `Pieces` (extra slashes after the scheme, type in any case, raw '#
 right-to-left splitting tolerates them) they generate the legal spellings of the tuple
 (type, namespace segments, name, version, qualifier content, subpath segments). -/
 
-/-- ANY SPELLING OF A TUPLE PARSES TO `build()` OF THE TUPLE.  The right-hand side mentions only the
-components (and the type as written, whose letter case `build()` removes): every spelling of the same
-components gives the same result, whatever escapes, hex case, extra slashes, dot pieces, key case,
-item order and empty-valued items it uses. -/
-theorem parse_spells (w : Pieces) (ok : w.Ok) (nsSegs subSegs : List Str) (name ver : Str)
+/-- what the spelling relations give: the pieces decode to the components -/
+theorem spells_decoded (w : Pieces) (nsSegs subSegs : List Str) (name ver : Str)
     (items : List (Str × Str × Str))
     (hns : match w.ns with
       | some x => ∃ ps, ps ≠ [] ∧ x = joinWith '/' ps ∧ NsSp nsSegs ps
@@ -116,8 +113,11 @@ theorem parse_spells (w : Pieces) (ok : w.Ok) (nsSegs subSegs : List Str) (name 
       | some x => ∃ ps, ps ≠ [] ∧ x = joinWith '/' ps ∧ SubSp subSegs ps
       | none => subSegs = []) :
     ∃ q, QInv q ∧ (∀ p, lookup q p = contentLookup items p) ∧
-      parseS U w.assemble = buildS U ⟨w.ty, { ns := joinWith '/' nsSegs, name := name, version := ver,
-                                               quals := q, subpath := joinWith '/' subSegs }⟩ := by
+      (match w.sub with | some x => decodeSubpath x = .ok (joinWith '/' subSegs) | none => joinWith '/' subSegs = []) ∧
+      (match w.quals with | some x => decodeQualifiers U x [] = .ok q | none => q = []) ∧
+      (match w.ns with | some x => decodeNamespace x = .ok (joinWith '/' nsSegs) | none => joinWith '/' nsSegs = []) ∧
+      decode w.name = .ok name ∧
+      (match w.ver with | some x => decode x = .ok ver | none => ver = []) := by
   -- the qualifier collection determined by the items
   have hitems : (∀ it ∈ items, ItemOk it.1 it.2.1 it.2.2) ∧ (items.map (·.2.1)).Nodup := by
     cases hs : w.quals with
@@ -128,8 +128,7 @@ theorem parse_spells (w : Pieces) (ok : w.Ok) (nsSegs subSegs : List Str) (name 
     intro p
     rw [hq3 p]
     cases contentLookup items p <;> rfl
-  refine ⟨q, hq2, hq3', ?_⟩
-  apply parse_of_pieces U w ok
+  refine ⟨q, hq2, hq3', ?_, ?_, ?_, Purl.pct_spelling_decodes name w.name hname, ?_⟩
   · -- subpath
     cases hs : w.sub with
     | none => rw [hs] at hsub; simp only at hsub; subst hsub; rfl
@@ -164,10 +163,54 @@ theorem parse_spells (w : Pieces) (ok : w.Ok) (nsSegs subSegs : List Str) (name 
       rw [hs] at hns
       obtain ⟨ps, hne, rfl, hsp⟩ := hns
       exact decodeNamespace_spelled hsp hne
-  · exact Purl.pct_spelling_decodes name w.name hname
   · cases hs : w.ver with
     | none => rw [hs] at hver; exact hver
     | some x => rw [hs] at hver; exact Purl.pct_spelling_decodes ver x hver
+
+/-- ANY SPELLING OF A TUPLE PARSES TO `build()` OF THE TUPLE.  The right-hand side mentions only the
+components (and the type as written, whose letter case `build()` removes): every spelling of the same
+components gives the same result, whatever escapes, hex case, extra slashes, dot pieces, key case,
+item order and empty-valued items it uses. -/
+theorem parse_spells (w : Pieces) (ok : w.Ok) (nsSegs subSegs : List Str) (name ver : Str)
+    (items : List (Str × Str × Str))
+    (hns : match w.ns with
+      | some x => ∃ ps, ps ≠ [] ∧ x = joinWith '/' ps ∧ NsSp nsSegs ps
+      | none => nsSegs = [])
+    (hname : PctSp name w.name)
+    (hver : match w.ver with | some x => PctSp ver x | none => ver = [])
+    (hq : match w.quals with
+      | some x => items ≠ [] ∧ x = joinWith '&' (items.map (·.1)) ∧
+          (∀ it ∈ items, ItemSp it.1 it.2.1 it.2.2) ∧ (items.map (·.2.1)).Nodup
+      | none => items = [])
+    (hsub : match w.sub with
+      | some x => ∃ ps, ps ≠ [] ∧ x = joinWith '/' ps ∧ SubSp subSegs ps
+      | none => subSegs = []) :
+    ∃ q, QInv q ∧ (∀ p, lookup q p = contentLookup items p) ∧
+      parseS U w.assemble = buildS U ⟨w.ty, { ns := joinWith '/' nsSegs, name := name, version := ver,
+                                               quals := q, subpath := joinWith '/' subSegs }⟩ := by
+  obtain ⟨q, h1, h2, d1, d2, d3, d4, d5⟩ := spells_decoded U w nsSegs subSegs name ver items hns hname hver hq hsub
+  exact ⟨q, h1, h2, parse_of_pieces U w ok _ _ _ _ q d1 d2 d3 d4 d5⟩
+
+/-- the same for the typed parser (the type, in any letter case, being one of the known ones) -/
+theorem parseP_spells (w : Pieces) (ok : w.Ok) (t : PkgType) (ht : PkgType.ofStr U w.ty = some t)
+    (nsSegs subSegs : List Str) (name ver : Str) (items : List (Str × Str × Str))
+    (hns : match w.ns with
+      | some x => ∃ ps, ps ≠ [] ∧ x = joinWith '/' ps ∧ NsSp nsSegs ps
+      | none => nsSegs = [])
+    (hname : PctSp name w.name)
+    (hver : match w.ver with | some x => PctSp ver x | none => ver = [])
+    (hq : match w.quals with
+      | some x => items ≠ [] ∧ x = joinWith '&' (items.map (·.1)) ∧
+          (∀ it ∈ items, ItemSp it.1 it.2.1 it.2.2) ∧ (items.map (·.2.1)).Nodup
+      | none => items = [])
+    (hsub : match w.sub with
+      | some x => ∃ ps, ps ≠ [] ∧ x = joinWith '/' ps ∧ SubSp subSegs ps
+      | none => subSegs = []) :
+    ∃ q, QInv q ∧ (∀ p, lookup q p = contentLookup items p) ∧
+      parseP U w.assemble = buildP U ⟨t, { ns := joinWith '/' nsSegs, name := name, version := ver,
+                                            quals := q, subpath := joinWith '/' subSegs }⟩ := by
+  obtain ⟨q, h1, h2, d1, d2, d3, d4, d5⟩ := spells_decoded U w nsSegs subSegs name ver items hns hname hver hq hsub
+  exact ⟨q, h1, h2, parseP_of_pieces U w ok t ht _ _ _ _ q d1 d2 d3 d4 d5⟩
 
 /-- two spellings of the same components — different escapes, slashes, dot pieces, key case, item
 order, empty-valued items, type case — parse to the same result -/
